@@ -612,7 +612,6 @@ package serf
 //@   # a query seen before, older than the cut-off or outside the window is neither processed nor re-broadcast
 //@   ensures duplicate_dropped [C08,C04]: seen0 ==> !rebroadcast && sentN(s.config.EventCh) == evN && logN("packets") == p0
 //@   ensures before_cutoff_dropped [C14,C08]: query.LTime < min0 ==> !rebroadcast && !processed && sentN(s.config.EventCh) == evN && logN("packets") == p0
-//@   ensures too_old_dropped [C08]: tooOldAt(c1, n, query.LTime) ==> !rebroadcast || true
 //@   ensures only_first_sight [C08,C04]: rebroadcast || processed ==> !seen0 && query.LTime >= min0 && !tooOldAt(c0, n, query.LTime)
 //@   # first sight: recorded, and re-broadcast regardless of the filters unless the query disables it
 //@   ensures first_sight_rebroadcast [C08,C04]: !seen0 && query.LTime >= min0 && !tooOldAt(c1, n, query.LTime) ==>
